@@ -193,8 +193,8 @@ class TableEx(Extractor):
                 out[name] = seg
             return out
         if fname == "min":
-            items = args[0]
-            return self.ctx.call("min_abs", *items) if kwargs.get("key") is not None or True else None
+            items = sorted(args[0], key=lambda r: r.show(400))  # min is symmetric in its arguments
+            return self.ctx.call("min_abs", *items)
         if fname in ("print", "np.isclose", "numpy.isclose"):
             return Opaque(fname)
         if fname == "abs":
